@@ -754,6 +754,122 @@ func drpcAppend(dst []byte, sid, mid uint64, kind uint8, data []byte) []byte {
 	return refwire.Encode(dst, refwire.Frame{Stream: sid, Message: mid, Kind: kind, Done: true, Data: data})
 }
 
+// parkEnc is an encoding whose Marshal waits until it is released.
+type parkEnc struct {
+	entered chan struct{}
+	release chan struct{}
+}
+
+func (e parkEnc) Marshal(m drpc.Message) ([]byte, error) {
+	close(e.entered)
+	<-e.release
+	return payload.Enc{}.Marshal(m)
+}
+func (parkEnc) Unmarshal(b []byte, m drpc.Message) error { return payload.Enc{}.Unmarshal(b, m) }
+
+// slowEncoder: one goroutine's MsgSend is inside a slow encoder; meanwhile 1-4 other goroutines of the
+// same endpoint call RawWrite, MsgSend, RawFlush and finally perhaps CloseSend on the stream and queue
+// up behind it. Then the encoder finishes. Whatever order the emitters get, the ids on the wire
+// never go down.
+func slowEncoder(id string, seed uint64) runner.Result {
+	r := &payload.SplitMix{S: seed}
+	cfg := prog.GenConfig(r, r.Intn(4) == 0)
+	if cfg.Net.Cap == 0 {
+		cfg.Net.Cap = -1
+	}
+	side := payload.Pick(r, []string{"client", "server"})
+	nq := 1 + r.Intn(4)
+	var plan []string
+	for g := 0; g < nq; g++ {
+		plan = append(plan, payload.Pick(r, []string{"RawWrite", "RawWrite", "MsgSend", "RawWrite,RawWrite", "RawWrite,MsgSend", "RawFlush,RawWrite", "MsgSend,RawWrite", "RawWrite,CloseSend"}))
+	}
+	size := r.Intn(3000)
+	pe := parkEnc{entered: make(chan struct{}), release: make(chan struct{})}
+	run := func(st drpc.Stream) {
+		raw, _ := st.(*drpcstream.Stream)
+		first := rig.Go("slow-send", func() (interface{}, error) {
+			m := payload.Make(1, 0, 0, 0, size)
+			return nil, st.MsgSend(&m, pe)
+		})
+		<-pe.entered
+		var ops []*rig.Op
+		for g, p := range plan {
+			g, p := g, p
+			ops = append(ops, rig.Go("queued", func() (interface{}, error) {
+				for k, c := range strings.Split(p, ",") {
+					switch c {
+					case "RawWrite":
+						if raw != nil {
+							raw.RawWrite(drpcwire.KindMessage, payload.Make(1, 0, uint16(g+1), uint32(k), 10))
+						}
+					case "MsgSend":
+						m := payload.Make(1, 0, uint16(g+1), uint32(k), 700)
+						st.MsgSend(&m, payload.Enc{})
+					case "RawFlush":
+						if raw != nil {
+							raw.RawFlush()
+						}
+					case "CloseSend":
+						st.CloseSend()
+					}
+				}
+				return nil, nil
+			}))
+			// one after the other: each is waiting before the next starts
+			census.Quiesce(rig.Watchdog)
+		}
+		close(pe.release)
+		first.Wait()
+		for _, op := range ops {
+			op.Wait()
+		}
+	}
+	done := make(chan struct{})
+	handler := rig.HandlerFunc(func(stream drpc.Stream, rpc string) error {
+		if side == "server" {
+			run(stream)
+			close(done)
+			return nil
+		}
+		var m []byte
+		for stream.MsgRecv(&m, payload.Enc{}) == nil {
+		}
+		return nil
+	})
+	rg := rig.New(rig.Config{Net: cfg.Net, Client: cfg.Client, Server: cfg.Server}, handler)
+	defer rg.Teardown()
+	st, err := rg.Conn.NewStream(context.Background(), "/slow-encoder", payload.Enc{})
+	if err != nil {
+		return runner.Inconcl(id, "NewStream: "+err.Error())
+	}
+	drv := rig.Go("driver", func() (interface{}, error) {
+		if side == "client" {
+			run(st)
+			st.CloseSend()
+		} else if f, ok := st.(flusher); ok {
+			f.RawFlush()
+		}
+		var m []byte
+		for st.MsgRecv(&m, payload.Enc{}) == nil {
+		}
+		if side == "server" {
+			<-done
+		}
+		return nil, st.Close()
+	})
+	hist := fmt.Sprintf("%s | slow-encoder on the %s: a MsgSend of %d bytes inside its encoder while %d goroutines queue up behind it with [%s]", cfg.Desc, side, size, nq, strings.Join(plan, " | "))
+	if !drv.Wait() {
+		select {
+		case <-pe.release:
+		default:
+			close(pe.release)
+		}
+		return runner.Inconcl(id, "the driver blocked: "+hist)
+	}
+	census.Quiesce(rig.Watchdog)
+	return wireVerdict(id, hist, rg, true)
+}
+
 func gen(tier string, seed uint64) []runner.Scenario {
 	n := 1000
 	if tier == "thorough" {
@@ -782,6 +898,10 @@ func gen(tier string, seed uint64) []runner.Scenario {
 		if i%2 == 0 {
 			id4 := fmt.Sprintf("cancel-at-creation/%d", i)
 			out = append(out, runner.Scenario{ID: id4, Run: func() runner.Result { return cancelAtCreation(id4, payload.Hash(seed, 0xC073, uint64(i))) }})
+		}
+		if i%4 == 1 {
+			id6 := fmt.Sprintf("slow-encoder/%d", i)
+			out = append(out, runner.Scenario{ID: id6, Run: func() runner.Result { return slowEncoder(id6, payload.Hash(seed, 0xC076, uint64(i))) }})
 		}
 		if i%4 == 0 {
 			id5 := fmt.Sprintf("late-calls/%d", i)
